@@ -120,7 +120,7 @@ def run(ctx):
     hf, he = ctx.body('column::HashColumn::flush'), F.body('column::HashColumn::enact_plan')
     if hf and he:
         writes_old = [lp for lp in lib.for_loops_over(he)] or True
-        applier_uses_queue = any('.Reindex.queue' in lib.receiver_fields(he, t, 0) for _, t in he.calls() if t['a'])
+        applier_uses_queue = any({'.Reindex.queue', '.HashColumn.reindex'} & lib.receiver_fields(x, t, 0) for x in lib.family(F, he.path) for _, t in x.calls() if t['a'])
         ctx.ob('2m0 applier-writes-queued-tables', 'anchor', he.path, 'the applier looks tables up in the reindex queue', applier_uses_queue, '')
         for kind, callee in (('index', 'index::IndexTable::flush'), ('ref-count', 'ref_count::RefCountTable::flush')):
             sites = lib.sites_reaching(hf, [callee])
